@@ -1923,12 +1923,13 @@ func (a *Agent) TaskPrepare(Command int, Info any, Message *map[string]string, C
 
 							} else {
 
+								/* the client is gone (reset or orderly close alike): forget the
+								 * socket and tell the agent to close its end */
 								if err != io.EOF {
-
-									/* we failed to read from the socks proxy */
 									logger.Error(fmt.Sprintf("Failed to read from socket %08x: %v", SocketId, err))
+								}
 
-									a.SocksClientClose(int32(SocketId))
+								if a.SocksClientClose(int32(SocketId)) {
 
 									/* make a new job */
 									var job = Job{
